@@ -939,7 +939,7 @@ def run_case(spec):
                                  f"(exp(log(k)) does not resolve integers of this size)",
                                  {"domain": descs[n], "value": repr(cfg[n]), "back": repr(back[n])})
                     continue
-                if descs[n]["k"] == "reverseloguniform" and abs(float(cfg[n])) < 1e-6:
+                if descs[n]["k"] == "reverseloguniform" and 0 < abs(float(cfg[n])) < 1e-6 and abs(float(back[n]) - float(cfg[n])) < 1e-9:
                     case.finding("c07:reverseloguniform-roundtrip-precision-near-zero",
                                  f"reverseloguniform({descs[n]['lo']!r},{descs[n]['hi']!r}): from_ndarray(to_ndarray({cfg[n]!r})) = {float(back[n])!r}, "
                                  f"relative error {abs(float(back[n]) - float(cfg[n])) / abs(float(cfg[n])):.2e} > 1e-7 (ReverseLogScaling computes log(1 - x) instead of log1p(-x))",
@@ -1080,6 +1080,27 @@ def run_moving_fixed(case, spec, header, hr, descs, doms, members, act_members, 
         # the box decodes to the current value
         if v is None:
             continue
+        # encoding and decoding a GIVEN member configuration is not touched by the fixed value: data points of other
+        # resource levels are encoded and decoded while the attribute is fixed (reference: the same object with the value
+        # released)
+        others = [w for w in pool if not same_value(descs[n], doms[n], w, v)]
+        if others and not huge:
+            try:
+                cfg2 = dict(hr.random_config(rs))
+                cfg2[n] = w = rng.choice(others)
+                back = hr.from_ndarray(hr.to_ndarray(dict(cfg2)))
+                hr.value_for_last_pos = None
+                ref = hr.from_ndarray(hr.to_ndarray(dict(cfg2)))
+            except Exception:  # noqa
+                back = ref = None
+            finally:
+                hr.value_for_last_pos = v
+            if back is not None:
+                case.count("moved-fixed:roundtrip-of-other-value")
+                if not same_value(descs[n], doms[n], back[n], ref[n]):
+                    case.finding("c07:fixed-last-pos-roundtrip-changes-value:" + kind_tag(descs[n]),
+                                 f"value_for_last_pos = {v!r}: the member configuration with {n}={w!r} encodes and decodes to {n}={back[n]!r} "
+                                 f"(with the value released: {ref[n]!r})", {"domain": descs[n], "fixed": repr(v), "value": repr(w)})
         for t in (0.0, 1.0, rng.random()):
             pnt = [float(a + (b - a) * t) for a, b in bounds]
             inp = {"op": "decode", "x": [frac_str(z) for z in pnt], "why": "box-moved"}
